@@ -175,151 +175,214 @@ func (p *Prog) resolveRoles() {
 		}
 	}
 	sort.Strings(missing)
-	for _, name := range missing {
-		want := roleTable[name]
-		// callees of the role that are gone as well may have been inlined into it: their constants and calls count as the role's
-		{
-			cs := map[string]bool{}
-			calls := map[string]bool{}
-			for _, c := range want.Consts {
-				cs[c] = true
-			}
-			var add func(fp roleFP, depth int)
-			add = func(fp roleFP, depth int) {
-				for _, c := range fp.Calls {
-					if c == name {
-						continue // self-recursion says nothing
-					}
-					if sub, isRole := roleTable[c]; isRole && p.byName[c] == nil && depth < 2 {
-						for _, k := range sub.Consts {
-							cs[k] = true
-						}
-						add(sub, depth+1)
-						continue
-					}
-					calls[c] = true
-				}
-			}
-			add(want, 0)
-			want.Consts, want.Calls = nil, nil
-			for k := range cs {
-				want.Consts = append(want.Consts, k)
-			}
-			for k := range calls {
-				want.Calls = append(want.Calls, k)
-			}
-			sort.Strings(want.Consts)
-			sort.Strings(want.Calls)
-		}
-		type cand struct {
-			fn    *ssa.Function
-			score float64
-		}
-		var cands []cand
-		for _, fn := range p.Funcs {
-			if taken[fn] || fn.Parent() != nil {
+	// several passes: a role that calls another renamed role is recognised once that one is bound (its calls
+	// then carry the canonical name, and the callee's constants are no longer counted as inlined into it)
+	for pass := 0; pass < 3; pass++ {
+		progress := false
+		for _, name := range missing {
+			if p.byName[name] != nil {
 				continue
 			}
-			recv, sig := sigString(fn)
-			if recv != want.Recv {
-				continue
-			}
-			if sig != want.Sig && sigShape(sig) != sigShape(want.Sig) {
-				// the same signature up to the names of module types (a renamed helper type in a parameter)
-				continue
-			}
-			// same package as the role
-			if pkgOfRole(name) != pkgOfRole(rawShortName(fn)) {
-				continue
-			}
-			fp := fingerprintExpanding(fn, rawShortName, func(callee *ssa.Function) bool {
-				if callee == nil || !inModule(callee) || len(callee.Blocks) == 0 {
-					return false
+			want := roleTable[name]
+			// callees of the role that are gone as well may have been inlined into it: their constants and calls count as the role's
+			{
+				cs := map[string]bool{}
+				calls := map[string]bool{}
+				for _, c := range want.Consts {
+					cs[c] = true
 				}
-				root := callee
-				for root.Parent() != nil {
-					root = root.Parent()
-				}
-				if o := root.Origin(); o != nil {
-					root = o
-				}
-				_, isRole := roleTable[rawShortName(root)]
-				return !isRole
-			})
-			// calls of the candidate to itself say nothing either
-			var candCalls []string
-			for _, c := range fp.Calls {
-				if c != rawShortName(fn) {
-					candCalls = append(candCalls, c)
-				}
-			}
-			score := 0.6*jaccard(fp.Consts, want.Consts) + 0.4*jaccard(candCalls, want.Calls)
-			cands = append(cands, cand{fn, score})
-		}
-		sort.Slice(cands, func(i, j int) bool { return cands[i].score > cands[j].score })
-		// a tie (a role split into mutually recursive pieces looks the same from each piece): the piece that the
-		// role's former callers call now is the role
-		if len(cands) > 1 && cands[0].score >= 0.45 && cands[0].score-cands[1].score < 0.15 {
-			evidence := func(cand *ssa.Function) int {
-				n := 0
-				for caller, fp := range roleTable {
-					cf := p.byName[caller]
-					if cf == nil {
-						continue
-					}
-					was := false
+				var add func(fp roleFP, depth int)
+				add = func(fp roleFP, depth int) {
 					for _, c := range fp.Calls {
 						if c == name {
-							was = true
+							continue // self-recursion says nothing
 						}
+						if sub, isRole := roleTable[c]; isRole && p.byName[c] == nil && depth < 2 {
+							for _, k := range sub.Consts {
+								cs[k] = true
+							}
+							add(sub, depth+1)
+							continue
+						}
+						calls[c] = true
 					}
-					if !was {
-						continue
+				}
+				add(want, 0)
+				want.Consts, want.Calls = nil, nil
+				for k := range cs {
+					want.Consts = append(want.Consts, k)
+				}
+				for k := range calls {
+					want.Calls = append(want.Calls, k)
+				}
+				sort.Strings(want.Consts)
+				sort.Strings(want.Calls)
+			}
+			type cand struct {
+				fn    *ssa.Function
+				score float64
+			}
+			var cands []cand
+			for _, fn := range p.Funcs {
+				if taken[fn] || fn.Parent() != nil {
+					continue
+				}
+				recv, sig := sigString(fn)
+				if recv != want.Recv {
+					continue
+				}
+				if sig != want.Sig && sigShape(sig) != sigShape(want.Sig) {
+					// the same signature up to the names of module types (a renamed helper type in a parameter)
+					continue
+				}
+				// same package as the role
+				if pkgOfRole(name) != pkgOfRole(rawShortName(fn)) {
+					continue
+				}
+				fp := fingerprintExpanding(fn, rawShortName, func(callee *ssa.Function) bool {
+					if callee == nil || !inModule(callee) || len(callee.Blocks) == 0 {
+						return false
 					}
-					walkFuncTree(cf, func(f *ssa.Function) {
-						for _, site := range callsIn(f) {
-							if site.Common().StaticCallee() == cand {
-								n++
+					root := callee
+					for root.Parent() != nil {
+						root = root.Parent()
+					}
+					if o := root.Origin(); o != nil {
+						root = o
+					}
+					_, isRole := roleTable[rawShortName(root)]
+					return !isRole
+				})
+				// calls of the candidate to itself say nothing either
+				var candCalls []string
+				for _, c := range fp.Calls {
+					if c != rawShortName(fn) {
+						candCalls = append(candCalls, c)
+					}
+				}
+				score := 0.6*jaccard(fp.Consts, want.Consts) + 0.4*jaccard(candCalls, want.Calls)
+				cands = append(cands, cand{fn, score})
+			}
+			sort.Slice(cands, func(i, j int) bool { return cands[i].score > cands[j].score })
+			// a tie (a role split into mutually recursive pieces looks the same from each piece): the piece that the
+			// role's former callers call now is the role
+			if len(cands) > 1 && cands[0].score >= 0.45 && cands[0].score-cands[1].score < 0.15 {
+				evidence := func(cand *ssa.Function) int {
+					n := 0
+					for caller, fp := range roleTable {
+						cf := p.byName[caller]
+						if cf == nil {
+							continue
+						}
+						was := false
+						for _, c := range fp.Calls {
+							if c == name {
+								was = true
 							}
 						}
-					})
+						if !was {
+							continue
+						}
+						walkFuncTree(cf, func(f *ssa.Function) {
+							for _, site := range callsIn(f) {
+								if site.Common().StaticCallee() == cand {
+									n++
+								}
+							}
+						})
+					}
+					return n
 				}
-				return n
+				best, bestN, second := -1, 0, 0
+				for i, cd := range cands {
+					if cands[0].score-cd.score >= 0.15 {
+						break
+					}
+					if e := evidence(cd.fn); e > bestN {
+						best, second, bestN = i, bestN, e
+					} else if e > second {
+						second = e
+					}
+				}
+				if best >= 0 && bestN > second {
+					cands[0], cands[best] = cands[best], cands[0]
+					cands[0].score += 0.2 // decided by caller evidence
+				}
 			}
-			best, bestN, second := -1, 0, 0
-			for i, cd := range cands {
-				if cands[0].score-cd.score >= 0.15 {
+			switch {
+			case len(cands) == 1 && cands[0].score >= 0.3:
+			case len(cands) > 1 && cands[0].score >= 0.45 && cands[0].score-cands[1].score >= 0.15:
+			default:
+				// the same function with another interface: a method that became a plain function taking what it read
+				// from its receiver as a parameter (or the reverse) keeps its name — the single untaken function of that
+				// name in the package whose body still looks like the role's is the role
+				bare := name[strings.LastIndex(name, ".")+1:]
+				var same []cand
+				for _, fn := range p.Funcs {
+					if taken[fn] || fn.Parent() != nil || fn.Name() != bare || pkgOfRole(name) != pkgOfRole(rawShortName(fn)) {
+						continue
+					}
+					fp := fingerprint(fn, shortName)
+					// a recursive role calls itself under its old name, the candidate under its new one
+					noSelf := func(calls []string, self string) []string {
+						var out []string
+						for _, c := range calls {
+							if c != self {
+								out = append(out, c)
+							}
+						}
+						return out
+					}
+					same = append(same, cand{fn, 0.6*jaccard(fp.Consts, want.Consts) + 0.4*jaccard(noSelf(fp.Calls, rawShortName(fn)), noSelf(want.Calls, name))})
+				}
+				if len(same) == 1 && same[0].score >= 0.5 {
+					cands = same
 					break
 				}
-				if e := evidence(cd.fn); e > bestN {
-					best, second, bestN = i, bestN, e
-				} else if e > second {
-					second = e
+				// renamed *and* given another interface (a result turned into a map the caller hands in): only a
+				// body that is all but identical — and the only such one in the package — is taken for the role
+				var alike []cand
+				for _, fn := range p.Funcs {
+					if taken[fn] || fn.Parent() != nil || pkgOfRole(name) != pkgOfRole(rawShortName(fn)) {
+						continue
+					}
+					if _, isRole := roleTable[rawShortName(fn)]; isRole {
+						continue
+					}
+					fp := fingerprint(fn, rawShortName)
+					var calls []string
+					for _, c := range fp.Calls {
+						if c != rawShortName(fn) {
+							calls = append(calls, c)
+						}
+					}
+					if sc := 0.6*jaccard(fp.Consts, want.Consts) + 0.4*jaccard(calls, want.Calls); (sc >= 0.85 && len(want.Calls)+len(want.Consts) >= 6) || (sc >= 0.95 && len(want.Calls)+len(want.Consts) >= 4) {
+						alike = append(alike, cand{fn, sc})
+					}
 				}
+				if len(alike) == 1 {
+					cands = alike
+					break
+				}
+				continue // stays missing: the rules that need it report UNDECIDED
 			}
-			if best >= 0 && bestN > second {
-				cands[0], cands[best] = cands[best], cands[0]
-				cands[0].score += 0.2 // decided by caller evidence
-			}
+			fn := cands[0].fn
+			progress = true
+			taken[fn] = true
+			canonicalName[fn] = name
+			p.byName[name] = fn
+			p.Renamed = append(p.Renamed, fmt.Sprintf("%s is now %s (matched by signature and fingerprint, score %.2f)", name, rawShortName(fn), cands[0].score))
+			// closures keep their parent's canonical prefix
+			walkFuncTree(fn, func(f *ssa.Function) {
+				if f != fn {
+					canonicalName[f] = name + strings.TrimPrefix(rawShortName(f), rawShortName(fn))
+					p.byName[canonicalName[f]] = f
+				}
+			})
 		}
-		switch {
-		case len(cands) == 1 && cands[0].score >= 0.3:
-		case len(cands) > 1 && cands[0].score >= 0.45 && cands[0].score-cands[1].score >= 0.15:
-		default:
-			continue // stays missing: the rules that need it report UNDECIDED
+		if !progress {
+			break
 		}
-		fn := cands[0].fn
-		taken[fn] = true
-		canonicalName[fn] = name
-		p.byName[name] = fn
-		p.Renamed = append(p.Renamed, fmt.Sprintf("%s is now %s (matched by signature and fingerprint, score %.2f)", name, rawShortName(fn), cands[0].score))
-		// closures keep their parent's canonical prefix
-		walkFuncTree(fn, func(f *ssa.Function) {
-			if f != fn {
-				canonicalName[f] = name + strings.TrimPrefix(rawShortName(f), rawShortName(fn))
-				p.byName[canonicalName[f]] = f
-			}
-		})
 	}
 }
 
@@ -336,7 +399,8 @@ func pkgOfRole(name string) string {
 // around a library call that many rules anchor on, and are replaced by their body wherever they are called (§6.8),
 // so that those rules keep seeing the library call — together with the guard the wrapper puts in front of it.
 var transparentHelper = map[string]bool{
-	"helpers.Sprint": true, // fmt.Sprint behind the cycle guard (repair 66)
+	"helpers.Sprint":        true, // fmt.Sprint behind the cycle guard (repair 66)
+	"helpers.TrimHTMLSpace": true, // strings.Trim(s, htmlSpace): called for node text and (repair 113) for attribute values — as one shared callee it would merge the two flows in the context-insensitive taint rules (C19.R1)
 }
 
 // genRoles prints roles_table.go for the given names from the loaded tree.
